@@ -72,7 +72,7 @@ private def asRead? : Sexp → Option (Except Err Arr)
   | _ => none
 
 private def errName : Err → String
-  | .index => "index" | .reshape => "reshape" | .library => "library"
+  | .index => "index" | .reshape => "reshape" | .library => "library" | .typeError => "typeError"
 
 private def resOf : Except Err Arr → Sexp
   | .ok a => list [atom "ok", natsOf a.shape, natsOf a.data]
@@ -116,6 +116,21 @@ def handleFileHandlers : List Sexp → Option String
     let rd ← asRead? rd
     let read : Key → Except Err Arr := fun k => if k = .scalar .ellipsis then full else rd
     pure (toString (resOf (lazyGet read id shape reshape key)))
+  | [atom "fh-lazyobj", ty, shape, atom nd, list ops] => do
+    let ty ← asStr? ty
+    let shape ← asNats? shape
+    let nd ← nd.toNat?
+    let ops ← ops.mapM fun o => match o with
+      | list (atom "ints" :: l) => do pure (ReshapeArgs.ints (← l.mapM asNat?))
+      | list (atom "seq" :: l) => do pure (ReshapeArgs.seq (← l.mapM asNat?))
+      | _ => none
+    let v : Var := { name := "", ty := ty, shape := shape, dims := List.replicate nd "", attrs := [] }
+    let lv := ops.foldl Lazy.doReshape (Lazy.ofVar v)
+    let ln := match lv.len with
+      | .ok n => list [atom "ok", atom (toString n)]
+      | .error e => list [atom "err", atom (errName e)]
+    pure (toString (list [hexS lv.dtype, atom (toString lv.ndim), natsOf lv.shape, natsOf lv.reshape,
+                          atom (toString lv.size), ln]))
   | [atom "fh-lazyget-pinned", reshape, key, rd] => do
     let reshape ← asNats? reshape
     let key ← asKey? key
